@@ -26,6 +26,7 @@ def main(tier):
     cg = M.CallGraph(fx, ["temporal_rs", "temporal_provider"])
     provider.check_lock_discipline(run, fx, cg)
     provider.check_effects(run, fx, cg)
+    provider.check_cache_key(run, fx)
     run.analysed["call_graph_functions"] = len(cg.fns)
     run.assumptions += ["code outside temporal_rs/temporal_provider (std, icu, tzif, combine) cannot name TZ_PROVIDER and "
                         "is not followed by the call graph", "std::sync::Mutex and LazyLock are correct",
